@@ -77,13 +77,72 @@ def check_ordered(ctx: Context, rep, rule: str):
                where=wm.qualname, construct=short(p, 70),
                message="all results are collected (list(...)) before the "
                "pool is closed")
-    zips = [c for c in wm.calls() if isinstance(c.func, ast.Name) and
-            c.func.id == "zip" and len(c.args) == 4]
-    ok_zip = len(zips) == 1 and [short(a) for a in zips[0].args[1:]] == [
-        "dataset_fillers", "custom_arguments", "custom_kwarguments"] and \
-        "repeat(feed_writer)" in ast.unparse(zips[0].args[0])
-    rep.ob(rule, ok_zip, loc=wm.loc(zips[0]) if zips else wm.loc(),
-           where=wm.qualname, construct=short(zips[0], 110) if zips else "",
+    # element k of the worker inputs, symbolically: the mapped iterable is a
+    # zip (its element is the tuple of its operands' elements; repeat(x) has
+    # the constant element x) or a generator expression / map over one
+    from sa import norm as _norm
+
+    def elem(e, depth=0):
+        """Symbolic k-th element of the iterable expression e."""
+        if depth > 6:
+            return None
+        if isinstance(e, ast.Name):
+            d = _norm.single_defs(wm).get(e.id) if hasattr(
+                _norm, "single_defs") else None
+            if d is None:
+                from sa.valuation import single_defs as _sd
+                d = _sd(wm).get(e.id)
+            if d is not None and isinstance(d, (ast.Call, ast.GeneratorExp,
+                                                ast.ListComp)) and not (
+                    isinstance(d, ast.ListComp) and e.id in (
+                        "dataset_fillers", )):
+                r = elem(d, depth + 1)
+                if r is not None:
+                    return r
+            return f"idx:{e.id}"
+        if isinstance(e, ast.Call):
+            nm = (dotted(e.func) or "").rsplit(".", 1)[-1]
+            if nm == "repeat" and len(e.args) == 1:
+                return f"const:{ast.unparse(e.args[0])}"
+            if nm == "zip" and not e.keywords:
+                parts = [elem(a, depth + 1) for a in e.args]
+                return None if None in parts else tuple(parts)
+            if nm in ("list", "tuple", "iter") and len(e.args) == 1:
+                return elem(e.args[0], depth + 1)
+        if isinstance(e, (ast.GeneratorExp, ast.ListComp)) and len(
+                e.generators) == 1 and not e.generators[0].ifs:
+            g = e.generators[0]
+            src = elem(g.iter, depth + 1)
+            if src is None:
+                return None
+            env = {}
+            if isinstance(g.target, ast.Name):
+                env[g.target.id] = src
+            elif isinstance(g.target, ast.Tuple) and isinstance(
+                    src, tuple) and len(src) == len(g.target.elts) and all(
+                        isinstance(t, ast.Name) for t in g.target.elts):
+                env = {t.id: s for t, s in zip(g.target.elts, src)}
+            else:
+                return None
+
+            def sub(x):
+                if isinstance(x, ast.Tuple):
+                    parts = [sub(y) for y in x.elts]
+                    return None if None in parts else tuple(parts)
+                if isinstance(x, ast.Name):
+                    return env.get(x.id, f"const:{x.id}")
+                return None
+            return sub(e.elt)
+        return None
+
+    want = ("const:feed_writer", "idx:dataset_fillers", "idx:custom_arguments",
+            "idx:custom_kwarguments")
+    got = None
+    for n, _name in maps:
+        if len(n.ast.args) >= 2:
+            got = elem(n.ast.args[1])
+    rep.ob(rule, got == want, loc=wm.loc(maps[0][0].ast), where=wm.qualname,
+           construct=f"input k = {got}",
            message="writer k gets filler k, arguments k and keyword "
            "arguments k")
     wf = ctx.fn(f"{DW}:_wrapper_func")
